@@ -36,6 +36,30 @@ class XDict(dict):
 # which dictionary type the "D" nodes of the case in progress are built with (set by run_case; workers are
 # single-threaded): plain dict, collections.OrderedDict, a user subclass of dict, collections.defaultdict
 _DVAR = ["dict"]
+# dtype variant of the case in progress: "f64" (all tensors float64) or "mixed" (alias class k has dtype
+# float32 / float64 / complex128 by k mod 3, with values that are NOT representable in the narrower dtypes)
+_DTV = ["f64"]
+_MIXED = [torch.float32, torch.float64, torch.complex128]
+
+
+def _cls_dtype(k):
+    return torch.float64 if _DTV[0] == "f64" else _MIXED[k % 3]
+
+
+def _frac(dt):
+    """a fractional part that exists in dtype dt only"""
+    if _DTV[0] == "f64":
+        return 0.0
+    return {torch.float32: 0.25, torch.float64: 0.1, torch.complex128: 0.1 + 0.3j}[dt]
+
+
+def _same_values(r, e):
+    """value comparison across dtypes (the flat interface returns the promoted dtype)"""
+    if r.shape != e.shape:
+        return False
+    if r.dtype == e.dtype:
+        return bool(torch.equal(r, e))
+    return bool((r.to(torch.complex128) == e.to(torch.complex128)).all())
 
 
 def _dict_type():
@@ -124,6 +148,17 @@ def cases(tier, seed):
             for part in partitions(ns):
                 depth = 3 if n <= 3 else 2
                 out.append({"spec": spec, "part": part, "nodes": n, "depth": depth})
+    # mixed dtypes: every structure with <= 4 (quick) / 5 (thorough) nodes and at least two tensor slots, every
+    # alias partition with at least two classes
+    for n in range(2, (5 if tier == "quick" else 6)):
+        for spec in _trees(n):
+            ns = count_slots(spec)
+            if ns < 2:
+                continue
+            for part in partitions(ns):
+                if max(part) < 1:
+                    continue
+                out.append({"spec": spec, "part": part, "nodes": n, "depth": 2, "dtv": "mixed"})
     # dictionary variants: every structure with <= 3 (quick) / 4 (thorough) nodes that contains a dictionary
     for n in range(2, (4 if tier == "quick" else 5)):
         for spec in _trees(n):
@@ -141,8 +176,8 @@ def build(spec, part):
     """returns obj, slots (tensor objects in traversal order), tuple_tensors"""
     nclass = (max(part) + 1) if part else 0
     import math
-    ctens = [torch.arange(1, 1 + math.prod(SHAPES[k % 3]), dtype=torch.float64).reshape(SHAPES[k % 3]) + 10.0 * k
-             for k in range(nclass)]
+    ctens = [(torch.arange(1, 1 + math.prod(SHAPES[k % 3]), dtype=torch.float64).reshape(SHAPES[k % 3]) + 10.0 * k
+              ).to(_cls_dtype(k)) + _frac(_cls_dtype(k)) for k in range(nclass)]
     slots = []
     tts = []
     counter = [0]
@@ -218,7 +253,7 @@ def compare(res, orig, spec, expect, by_identity):
                 if r is not e:
                     fails.append("slot-wrong-object")
             else:
-                if r.shape != e.shape or not torch.equal(r, e):
+                if not _same_values(r, e):
                     fails.append("slot-wrong-value")
             return
         if k in ("i", "n"):
@@ -351,7 +386,8 @@ class World:
         out = []
         for t in base:
             self.fresh += 1
-            nt = torch.full(t.shape, 100.0 + self.fresh, dtype=t.dtype) + torch.arange(t.numel(), dtype=t.dtype).reshape(t.shape)
+            nt = torch.full(t.shape, 100.0 + self.fresh, dtype=t.dtype) + \
+                torch.arange(t.numel(), dtype=t.dtype).reshape(t.shape) + _frac(t.dtype)
             out.append(nt)
         self.keep.extend(out)
         return out
@@ -382,7 +418,8 @@ class World:
                     fails.append("flat-getter-not-None-without-tensors")
             else:
                 exp = torch.cat([t.reshape(-1) for t in ref])
-                if not isinstance(got, torch.Tensor) or got.numel() != exp.numel() or not torch.equal(got.reshape(-1), exp):
+                if not isinstance(got, torch.Tensor) or got.numel() != exp.numel() or \
+                        not _same_values(got.reshape(-1), exp):
                     fails.append("flat-getter-wrong-value")
             self.flags[("l", u)] = True
             self.flags[("f", u)] = True
@@ -502,6 +539,7 @@ def replay(spec, part, hist):
 def run_case(cfg):
     spec, part, depth = cfg["spec"], cfg["part"], cfg["depth"]
     _DVAR[0] = cfg.get("dvar", "dict")
+    _DTV[0] = cfg.get("dtv", "f64")
     viol = []
     table = {}
     n_exec = 0
